@@ -1,5 +1,6 @@
 import RbV.Basic.Codec
 import RbV.Basic.FloatParse
+import RbV.Gen.Scales
 /-! Driver for property C15: log-space probability arithmetic (line formats: see `harness/src/c15.rs`).
 
 Every operation is recomputed in **linear space** with core `Float` (IEEE binary64, libm `exp`/`log`) from the
@@ -24,6 +25,16 @@ parsed operands and compared with the linear image of the reported result:
 `reject fastexp-cutoff` (known finding C15-fastexp-cutoff) when the operand's own value is representable. -/
 namespace RbV.Drv.C15
 open RbV.Codec RbV.FloatParse
+
+/-! The literals of the source the driver needs are **not copied**: `RbV/Gen/Scales.lean` is extracted from
+`src/stats/probs/mod.rs` and `src/utils/fastexp.rs` on every run (tools/gen_tables.py, DESIGN §8). -/
+/-- `MIN_VAL` of fastexp.rs (−500) -/
+def minValF : Float := Gen.Scales.minVal.toFloat
+/-- switch point of `ln_1m_exp` (−0.693) -/
+def switchF : Float := Gen.Scales.ln1mExpSwitch.toFloat
+/-- `LOG_TO_PHRED_FACTOR`, `PHRED_TO_LOG_FACTOR`: the `f64` the source literals denote -/
+def logToPhredF : Float := Gen.Scales.logToPhred.toFloat
+def phredToLogF : Float := Gen.Scales.phredToLog.toFloat
 
 def tolFast : Float := 0.005
 def tolExact : Float := 1e-9
@@ -149,8 +160,8 @@ def pairTags (a b : Float) : String :=
   ++ (if finite a && finite b then
         (if a == b then " equal" else "")
         ++ (if hi - lo > 690.0 then " 300-orders-apart" else "")
-        ++ (if hi - lo ≥ 500.0 then " beyond-cutoff" else if hi - lo > 499.0 then " near-cutoff" else "")
-        ++ (if (hi - lo - 0.693).abs < 1e-3 then " near-switch" else "")
+        ++ (if hi - lo ≥ -minValF then " beyond-cutoff" else if hi - lo > -minValF - 1.0 then " near-cutoff" else "")
+        ++ (if (hi - lo + switchF).abs < 1e-3 then " near-switch" else "")
         ++ (if hi < -708.0 then " underflow-range" else "")
       else "")
 
@@ -167,7 +178,7 @@ def verdict (toks : List String) (out : String) : String :=
         if !relClose l2q e1 1e-12 then s!"reject log-to-phred-factor got={fshow l2q}" else
         if !relClose q2l e2 1e-12 then s!"reject phred-to-log-factor got={fshow q2l}" else
         if !((l2q * q2l - 1.0).abs ≤ 1e-12) then "reject factors-not-inverse" else
-        "ok nt consts" ++ (if l2q == -4.3429448190325175 && q2l == -0.23025850929940456 then " literals-as-in-theorem" else " literals-drift")
+        "ok nt consts" ++ (if l2q == logToPhredF && q2l == phredToLogF then " literals-as-in-theorem" else " literals-drift")
       | _, _ => "bad-op output"
     | _ => "bad-op output"
   | ["checked", v] =>
@@ -189,7 +200,7 @@ def verdict (toks : List String) (out : String) : String :=
       let e := Float.exp x
       if e == 0.0 then (if r == 0.0 then "ok fexp underflow" else s!"reject fexp-value got={fshow r}") else
       -- documented cut-off `MIN_VAL` of fastexp itself: not an operation the property lists; tallied only
-      if x ≤ -500.0 && r == 0.0 then "ok fexp cutoff" else
+      if x ≤ minValF && r == 0.0 then "ok fexp cutoff" else
       let rel := (r - e).abs / e
       if rel ≤ tolFast then "ok nt fexp " ++ errBucket rel else s!"reject fexp-value exact={fshow e} got={fshow r}"
     | _, _ => "bad-op parse"
@@ -211,7 +222,7 @@ def verdict (toks : List String) (out : String) : String :=
     | some x, some r =>
       let v := checkLin [0.0] [x] r
       if isOk v then v ++ (if finite x && x < 0.0 then " nt" else "") ++ " 1m"
-        ++ (if x < -0.693 then " fast-branch" else " exact-branch") ++ pairTags 0.0 x else v
+        ++ (if x < switchF then " fast-branch" else " exact-branch") ++ pairTags 0.0 x else v
     | _, _ => "bad-op parse"
   | ["sum", l] =>
     match parseFloatList l, parseFloat out with
@@ -272,7 +283,7 @@ def verdict (toks : List String) (out : String) : String :=
           -- the documented cut-off of fastexp: LogProb ≤ -500 → Prob 0
           match fastOperand cs x with
           | some lx =>
-            if fast && lx ≤ -500.0 && finite lx && Float.exp lx > 0.0 &&
+            if fast && lx ≤ minValF && finite lx && Float.exp lx > 0.0 &&
                (match k with | 'p' => r == 0.0 | 'l' => isNegInf r | _ => isPosInf r) then
               s!"reject fastexp-cutoff conv-{chain} operand-ln={fshow lx}"
             else s!"reject conversion expected={fshow e} got={fshow r}"
